@@ -234,6 +234,7 @@ and observe_ (m : model) (x : sexp) : string =
       let fl = query_flows m (if name = "-" then None else Some (explode name)) (strata_of sf) (strata_of df) in
       "{\"flows\":" ^ jlist (fun f -> jlist (fun s -> s)
                  [jstr (implode f.f_name); jstr (string_of_kind f.f_kind); jopt jcomp f.f_src; jopt jcomp f.f_dst]) fl ^ "}"
+  | L (A "oracle" :: _) -> "{\"oracle\":null}"
   | _ -> failwith "bad observation"
 
 let run_program (line : string) : string =
